@@ -152,3 +152,14 @@ BASE_LOCKS = LockTable(
         'parsec_atomic_trylock': (_argn(0), 1),
     },
 )
+
+
+def _bucket(ev):
+    a = ev.args[0].s
+    return 'bucket:' + (a[1:] if a.startswith('&') else a)
+
+
+# bucket locks of parsec_hash_table (the *_impl names are what the macros expand to)
+HT_LOCKS = LockTable(
+    acquire={'parsec_hash_table_lock_bucket_handle': _bucket, 'parsec_hash_table_lock_bucket': _bucket},
+    release={'parsec_hash_table_unlock_bucket_handle_impl': _bucket, 'parsec_hash_table_unlock_bucket_impl': _bucket})
